@@ -14,7 +14,7 @@ Client protocol encoded in `step` (operations violating it are no-ops):
   `one size`   needs `size % 8 = 0` (ASMJIT_ASSERT(is_aligned(size, kAlignment)) in `alloc_oneshot`) and
                `0 < size` (a zero-size request on an arena without any block returns the address of the zero
                block: a region of zero bytes at position 0 of an empty chain, for which "`pos < blocks.length`"
-               is meaningless – see `one_zero_on_empty_arena` in Lemmas/C18Arena.lean)
+               is meaningless – see `one_zero_on_empty_arena` in Lemmas/C18Arena2.lean)
   `get h size` needs `0 < size` and `h` not live
   `put h`      needs `h` live; frees with the recorded location and allocated size
 Core-only imports.
